@@ -423,12 +423,10 @@ class VMTunnel(object):
         logging.debug(
             "Checking if the tunnel %s connects %s and %s", self, node1, node2
         )
-        if on_the_left(node1) and on_the_right(node2):
-            return True
-        elif on_the_right(node1) and on_the_left(node2):
-            return True
-        else:
-            return False
+        # evaluate all sides first so that the outcome does not depend on the order of the nodes
+        node1_left, node1_right = on_the_left(node1), on_the_right(node1)
+        node2_left, node2_right = on_the_left(node2), on_the_right(node2)
+        return (node1_left and node2_right) or (node1_right and node2_left)
 
     def _get_peer_variant(
         self,
@@ -449,7 +447,7 @@ class VMTunnel(object):
 
         if left_local["type"] == "nic":
             right_remote["type"] = "custom"
-            right_remote["nic"] = left_local["nic"]
+            right_remote["nic"] = left_local.get("nic", "lan_nic")
         elif left_local["type"] == "internetip":
             right_remote["type"] = "externalip"
         if left_remote["type"] == "custom":
@@ -457,17 +455,17 @@ class VMTunnel(object):
                 right_local["type"] = "custom"
             else:
                 right_local["type"] = "nic"
-                right_local["nic"] = left_remote["nic"]
+                right_local["nic"] = left_remote.get("nic", "lan_nic")
         elif left_remote["type"] == "externalip":
             right_local["type"] = "internetip"
 
         if left_peer["type"] == "dynip":
             right_peer["type"] = "ip"
-            right_peer["nic"] = left_peer["nic"]
+            right_peer["nic"] = left_peer.get("nic", "internet_nic")
         # road warriors are always assumed to be on the left side
         elif left_peer["type"] == "ip":
             right_peer["type"] = "ip"
-            right_peer["nic"] = left_peer["nic"]
+            right_peer["nic"] = left_peer.get("nic", "internet_nic")
 
         return right_local, right_remote, right_peer
 
